@@ -6,14 +6,21 @@
 (* segment back in doc-id order; a row is                                                       *)
 (*   <<pos, id (stored), t (stored), key (stored), ids (fast), keys (fast), field norm of body, *)
 (*     live docs of the unique term u<id> in this segment, frequency of x in body>>             *)
+(* and `terms` lists, for EVERY term of every indexed field of the segment (id, t, u, body with *)
+(* positions, the sort key when indexed, and the paths of the JSON field js: text leaf with     *)
+(* positions, i64 / bool / date / f64 leaves), the documents its posting list designates:       *)
+(*   <<"<field or path>:<value>", << <<id, positions>>, ... >> >>                               *)
 (* Checked: Sorted(seg) on the FAST-field values; every structure attached to the right         *)
-(* document; the content is what the sequential oracle (SeqOracle) says.                        *)
+(* document - the posting lists of a segment are exactly the terms of the documents that the    *)
+(* add events put there, positions included; the content is what the sequential oracle says.    *)
 EXTENDS SortedOrder, SeqOracle, Json, IOUtils, TLC
 
 Rec == ndJsonDeserialize(IOEnv.TRACE)
 
-VARIABLES l, tpend, tcommd, lo, metaop, ord
-tvars == <<l, tpend, tcommd, lo, metaop, ord>>
+VARIABLES l, tpend, tcommd, lo, metaop, ord,
+  ty,      \* type of the sort key (the key itself is an indexed field for i64 and str)
+  info     \* id -> what the add event said about the indexed text of the document: [toks, raw, js]
+tvars == <<l, tpend, tcommd, lo, metaop, ord, ty, info>>
 Ev == Rec[l]
 
 SeqToSet(s) == {s[i] : i \in 1..Len(s)}
@@ -36,6 +43,28 @@ SegOK(s) ==
   /\ n = s.max_doc - s.ndel
   /\ SortedKeys(ord, [j \in 1..n |-> FastKey(s.docs[j])])          \* C17: Sorted(seg)
 
+(* ---- postings: the terms a document must be found under, from its add event ---- *)
+PosOf(toks, tok) == SelectSeq([i \in 1..Len(toks) |-> i - 1], LAMBDA p : toks[p + 1] = tok)
+BoolStr(b) == IF b THEN "true" ELSE "false"
+JsTerms(js) ==
+  (IF "name" \in DOMAIN js THEN {<<"js.name:" \o js.name[i], PosOf(js.name, js.name[i])>> : i \in 1..Len(js.name)} ELSE {})
+  \cup (IF "n" \in DOMAIN js
+        THEN {<<"js.n:" \o ToString(js.n), <<>>>>, <<"js.even:" \o BoolStr(js.even), <<>>>>,
+              <<"js.d:" \o ToString(js.d), <<>>>>, <<"js.f:" \o js.f, <<>>>>}
+        ELSE {})
+DocTerms(id, t, v, c) ==
+  {<<"id:" \o ToString(id), <<>>>>, <<"t:" \o t, <<>>>>, <<"u:u" \o ToString(id), <<>>>>}
+  \cup {<<"body:" \o c.toks[i], PosOf(c.toks, c.toks[i])>> : i \in 1..Len(c.toks)}
+  \cup (IF ty \in {"i64", "str"} /\ v # Missing THEN {<<"k:" \o c.raw, <<>>>>} ELSE {})
+  \cup (IF "js" \in DOMAIN c THEN JsTerms(c.js) ELSE {})
+\* <<term, id, positions>> for every live document of the segment
+SegTermsExpected(s) ==
+  UNION {{<<x[1], s.docs[j][2], x[2]>> : x \in DocTerms(s.docs[j][2], s.docs[j][3], s.docs[j][4], info[s.docs[j][2]])} : j \in 1..Len(s.docs)}
+SegTermsObserved(s) ==
+  UNION {{<<s.terms[i][1], s.terms[i][2][h][1], s.terms[i][2][h][2]>> : h \in 1..Len(s.terms[i][2])} : i \in 1..Len(s.terms)}
+\* C17: postings stay attached to the right document
+TermsOK(s) == SegTermsObserved(s) = SegTermsExpected(s)
+
 ObsDocs(obs) == UNION {{RowDoc(s.docs[j]) : j \in 1..Len(s.docs)} : s \in SeqToSet(obs.segs)}
 
 ObsIs(obs, S) ==
@@ -48,35 +77,39 @@ ObsIs(obs, S) ==
      /\ {t \in DOMAIN obs.byterm : SeqToSet(obs.byterm[t]) # {d.id : d \in {x \in D : x.t = t}}
                                    \/ Len(obs.byterm[t]) # Cardinality(SeqToSet(obs.byterm[t]))} = {}
      /\ {d \in D : d.t \notin DOMAIN obs.byterm} = {}
+     /\ {s \in SeqToSet(obs.segs) : ~TermsOK(s)} = {}
 
 TReset ==
   /\ Ev.ev = "reset"
   /\ tpend' = {} /\ tcommd' = {} /\ lo' = 0 /\ metaop' = 0 /\ ord' = Ev.cfg.order
+  /\ ty' = Ev.cfg.type /\ info' = <<>>
 
 TAdd ==
   /\ Ev.ev = "add" /\ Ev.ok
   /\ Ev.opstamp >= lo /\ lo' = Ev.opstamp + 1
   /\ tpend' = OAdd(tpend, [id |-> Ev.id, t |-> Ev.t, v |-> Ev.v, nb |-> Ev.nb, tf |-> Ev.tf])
-  /\ UNCHANGED <<tcommd, metaop, ord>>
+  /\ LET c == IF "js" \in DOMAIN Ev THEN [toks |-> Ev.toks, raw |-> Ev.raw, js |-> Ev.js] ELSE [toks |-> Ev.toks, raw |-> Ev.raw]
+     IN info' = [x \in (DOMAIN info) \cup {Ev.id} |-> IF x = Ev.id THEN c ELSE info[x]]
+  /\ UNCHANGED <<tcommd, metaop, ord, ty>>
 
 TDel ==
   /\ Ev.ev = "del" /\ Ev.ok
   /\ Ev.opstamp >= lo /\ lo' = Ev.opstamp + 1
   /\ tpend' = ODel(tpend, Ev.pred)
-  /\ UNCHANGED <<tcommd, metaop, ord>>
+  /\ UNCHANGED <<tcommd, metaop, ord, ty, info>>
 
 TCommit ==
   /\ Ev.ev = "commit" /\ Ev.ok
   /\ Ev.opstamp >= lo /\ lo' = Ev.opstamp + 1
   /\ ObsIs(Ev.obs, tpend) /\ Ev.obs.metaop = Ev.opstamp
   /\ tcommd' = tpend /\ metaop' = Ev.opstamp
-  /\ UNCHANGED <<tpend, ord>>
+  /\ UNCHANGED <<tpend, ord, ty, info>>
 
 TRollback ==
   /\ Ev.ev = "rollback" /\ Ev.ok /\ Ev.opstamp = metaop
   /\ ObsIs(Ev.obs, tcommd) /\ Ev.obs.metaop = metaop
   /\ tpend' = tcommd /\ lo' = metaop
-  /\ UNCHANGED <<tcommd, metaop, ord>>
+  /\ UNCHANGED <<tcommd, metaop, ord, ty, info>>
 
 \* an explicit merge of sorted segments succeeds, keeps the content and leaves sorted segments
 TMerge ==
@@ -86,18 +119,18 @@ TMerge ==
           /\ (IF "res" \in DOMAIN Ev THEN {s \in SeqToSet(Ev.obs.segs) : s.sid = Ev.res} # {} ELSE TRUE)
           /\ {s \in SeqToSet(Ev.obs.segs) : s.sid \in SeqToSet(Ev.sids)} = {}
      ELSE Ev.err = "nosegments"
-  /\ UNCHANGED <<tpend, tcommd, lo, metaop, ord>>
+  /\ UNCHANGED <<tpend, tcommd, lo, metaop, ord, ty, info>>
 
 TEnd ==
   /\ Ev.ev = "end"
   /\ ObsIs(Ev.obs, tcommd)
-  /\ UNCHANGED <<tpend, tcommd, lo, metaop, ord>>
+  /\ UNCHANGED <<tpend, tcommd, lo, metaop, ord, ty, info>>
 
 TNext ==
   /\ l <= Len(Rec) /\ l' = l + 1
   /\ \/ TReset \/ TAdd \/ TDel \/ TCommit \/ TRollback \/ TMerge \/ TEnd
 
-TInit == l = 1 /\ tpend = {} /\ tcommd = {} /\ lo = 0 /\ metaop = 0 /\ ord = "asc"
+TInit == l = 1 /\ tpend = {} /\ tcommd = {} /\ lo = 0 /\ metaop = 0 /\ ord = "asc" /\ ty = "i64" /\ info = <<>>
 TSpec == TInit /\ [][TNext]_tvars
 
 Accepted ==
